@@ -116,6 +116,15 @@ class Interp(StmtMixin):
             return Val(z3.ToReal(v.t), "real")
         if ty == "real" and v.ty == "bool":
             return Val(z3.If(v.t, z3.RealVal(1), z3.RealVal(0)), "real")
+        if v.ty == "tree_value":
+            # AnyNode.value: float of a Num leaf, PDDLFunction of a Fn leaf, operator string of an inner node.
+            # The cast is guarded by a `cast` obligation emitted by the caller (cast_guard).
+            if ty == "real":
+                return Val(Tree.v(v.t), "real")
+            if ty == "str":
+                return Val(Tree.op(v.t), "str")
+            if is_ref(ty):
+                return Val(Tree.ref(v.t), ty)
         if ty == "sexp" and v.ty == "str":
             return Val(SExp.Atom(v.t), "sexp")
         if ty == "sexp" and v.ty == "slist":
@@ -144,6 +153,13 @@ class Interp(StmtMixin):
         if isinstance(ty, tuple) and ty[0] == "seq" and is_ref(v.ty):
             return v
         raise Unsupported(f"cannot coerce {v.ty} to {ty}")
+
+    def cast_guard(self, st, v, ty, line=None):
+        """Obligation that a dynamically typed AnyNode.value really has the shape it is used at."""
+        if v.ty != "tree_value":
+            return
+        g = Tree.is_Num(v.t) if ty == "real" else (Tree.is_Op(v.t) if ty == "str" else Tree.is_Fn(v.t))
+        self.oblige(st, "cast", f"AnyNode.value used as {ty}", g, line)
 
     def truthy(self, v, st=None):
         if v.ty == "bool":
@@ -198,6 +214,12 @@ class Interp(StmtMixin):
             return FALSE
         if a.ty == "sexp" and b.ty == "str":
             return z3.And(SExp.is_Atom(a.t), SExp.s(a.t) == b.t)
+        if a.ty == "tree_value" and b.ty == "str":
+            return z3.And(Tree.is_Op(a.t), Tree.op(a.t) == b.t)
+        if a.ty == "str" and b.ty == "tree_value":
+            return self.equal(st, b, a)
+        if a.ty == "tree_value" and b.ty in ("int", "real"):
+            return z3.And(Tree.is_Num(a.t), Tree.v(a.t) == self.coerce(b, "real").t)
         if a.ty == "str" and b.ty == "sexp":
             return self.equal(st, b, a)
         if a.ty in ("int", "real", "bool") and b.ty in ("int", "real", "bool"):
@@ -210,6 +232,8 @@ class Interp(StmtMixin):
             return z3.And(*[self.equal(st, x, y) for x, y in zip(a.py, b.py)]) if a.py else TRUE
         if is_ref(a.ty) and is_ref(b.ty):
             ca, cb = a.ty[1], b.ty[1]
+            if self.spec_mode and not (ca == cb == "PDDLType"):
+                return a.t == b.t          # identity in specifications
             if ca == cb == "PDDLType":      # PDDLType.__eq__ compares names (inlined; see class model)
                 return self.read_field(st, a, ca, "name").t == self.read_field(st, b, cb, "name").t
             if ca in ("deque", "list_str", "list_ref") and cb == ca:
@@ -352,6 +376,9 @@ class Interp(StmtMixin):
                 yield st, Val(t, "tree_value")
                 return
             raise Unsupported(f"AnyNode.{attr}")
+        if base.ty == "tree_value":
+            self.cast_guard(st, base, ("ref", "PDDLFunction"), line)
+            base = Val(Tree.ref(base.t), ("ref", "PDDLFunction"))
         if is_ref(base.ty):
             cls = base.ty[1]
             of = models.field_owner(cls, attr)
@@ -528,6 +555,9 @@ class Interp(StmtMixin):
         if a.ty in num and b.ty in num:
             if isinstance(op, ast.Div):
                 x, y = self.coerce(a, "real"), self.coerce(b, "real")
+                if self.spec_mode:
+                    yield st, Val(x.t / y.t, "real")
+                    return
                 s0 = st.assume(y.t == 0)
                 if self.feasible(s0):
                     yield s0, Raise("ZeroDivisionError", line)
